@@ -108,6 +108,7 @@ def obsOf? (xs : List Json) : Option Obs :=
   | [.str "orphanEnd"] => some (.lab .orphanEnd)
   | [.str "act", a] => (actorOf? a).map (fun a => .lab (.act a))
   | [.str "orchAbandon"] => some (.lab .orchAbandon)
+  | [.str "hungFail"] => some (.lab .hungFail)
   | [.str "rtStopRoots"] => some (.lab .rtStopRoots)
   | [.str "rtCancel"] => some (.lab .rtCancel)
   | [.str "rtHungWait"] => some (.lab .rtHungWait)
